@@ -1,12 +1,4 @@
 #!/bin/bash
 # dev/runseeds.sh <parallelism> <dir>...   runs bin/seedtest for each dir (props from meta.json), writes <dir>/result.json
 P=$1; shift
-printf '%s\n' "$@" | xargs -P "$P" -I{} bash -c 'extra=""; [ -f {}/demo_test.go ] || extra="--skip-validate"; /verif/bin/seedtest {} $extra > {}/result.json 2>&1; python3 - {} <<PY
-import json,sys
-d=sys.argv[1]
-try:
-    r=json.load(open(d+"/result.json"))
-    print(d, {k:(v["caught"],v["signature"]) for k,v in r.get("checks",{}).items()}, "unit:",r.get("unit_tests_with_change"), "demo:",r.get("demo_with_change"), r.get("demo_without_change"), "applies:",r.get("applies"))
-except Exception as e:
-    print(d, "ERROR", e, open(d+"/result.json").read()[-300:])
-PY'
+printf '%s\n' "$@" | xargs -P "$P" -n 1 /verif/dev/runseed1.sh
